@@ -78,6 +78,9 @@ func propC01(c *Ctx, r *Report) {
 	r.Clauses = append(r.Clauses, zeroInitClause)
 	c.runZeroInitOpVariable(r, "zeroinit.opvariable")
 	r.floor("zeroinit.opvariable", 2)
+	r.Clauses = append(r.Clauses, accumDroppedClause)
+	c.runAccumDropped(r, "accum.dropped", inPkgs("spirv"))
+	r.floor("accum.dropped", 5)
 	r.Clauses = append(r.Clauses, argsRoleClause)
 	c.runArgsNameRole(r, "args.namerole", inPkgs("spirv"))
 	r.floor("args.namerole", 20)
@@ -104,6 +107,9 @@ func propC02(c *Ctx, r *Report) {
 	c.runWidthSuffix(r, "width.suffix", "spirv", "Capability")
 	r.floor("width.suffix", 6)
 	r.Clauses = append(r.Clauses, "merge before branch (E28, go/cfg must-analysis): in every function of the SPIR-V emitter, on every control-flow path to the emission of an OpBranchConditional or OpSwitch terminator an OpSelectionMerge / OpLoopMerge has been emitted before (directly, through a builder method or through a local closure)")
+	r.Clauses = append(r.Clauses, cacheKeyClause)
+	c.runCacheKeySeparator(r, "cachekey.separator", inPkgs("spirv"))
+	r.floor("cachekey.separator", 1)
 	c.runMergeFirst(r, "spirv.mergefirst")
 	r.floor("spirv.mergefirst", 6)
 	r.Clauses = append(r.Clauses, depthLikeClause)
